@@ -348,7 +348,19 @@ func c04sGen(cfg config, emit func(Case)) {
 			}
 			// the description is the 4th element: cut its text out of the frame
 			var arr []json.RawMessage
-			_ = json.Unmarshal(b, &arr)
+			if json.Unmarshal(b, &arr) != nil || len(arr) < 4 || len(arr[3]) < 2 {
+				// the serialised frame is not the JSON array [4, id, code, description, details]
+				in := []int64{b2i(esc)}
+				for _, r := range []rune(s) {
+					in = append(in, int64(r))
+				}
+				frame := string(b)
+				emit(Case{Class: "string-text", Input: in, Obs: []int64{-5}, Comment: fmt.Sprintf("%q esc=%v", s, esc),
+					Check: func([]int64) (string, string) {
+						return "C04-frame-not-json", fmt.Sprintf("CallError.MarshalJSON produced %q, which is not a JSON array of five elements", frame)
+					}})
+				continue
+			}
 			txt := string(arr[3])
 			txt = txt[1 : len(txt)-1]
 			var obs []int64
